@@ -527,7 +527,72 @@ def indirect_stream(chk):
                 chk.fail('tiling', f'token {t.text!r} does not carry the characters of the span it covers', case)
                 break
     chk.stat('indirect-texts', n)
+    configuration_stream(chk)
     position_stream(chk)
+
+
+def configuration_stream(chk):
+    """The token stream does not depend on how the lexer is called or on the process configuration: the pattern given as
+    text or compiled, and the logging level of the `penman` logger (the command's -v flags), give the same tokens."""
+    import logging
+    import penman
+    from penman import _lexer
+    rng = chk.rng
+    n = 300 if chk.tier == 'quick' else 3000
+
+    def toks(s, **kw):
+        try:
+            return [(t.type, t.text, t.lineno, t.offset) for t in common.timed(lambda: list(_lexer.lex(s, **kw)), seconds=5)]
+        except Exception as e:       # noqa
+            return ('EXC', type(e).__name__)
+    logger = logging.getLogger('penman')
+    old_level = logger.level
+    handler = logging.NullHandler()
+    logger.addHandler(handler)
+    logger.propagate = False                 # nothing is printed: the records end in the NullHandler
+    old_disable = logging.root.manager.disable
+    logging.disable(logging.NOTSET)          # the harness silences penman's warnings globally; not in this stream
+    try:
+        for i in range(n):
+            s = gen.random_penman_text(rng, maxdepth=2, p_bad=0.2)
+            case = {'stream': 'configuration', 'input': s}
+            chk.count(('configuration', s))
+            for rx in (_lexer.PENMAN_RE, _lexer.TRIPLE_RE):
+                base = toks(s, pattern=rx)
+                if toks(s, pattern=rx.pattern) != base:
+                    chk.fail('tiling', 'lex(s, pattern=<text>) and lex(s, pattern=<compiled>) give different tokens', case)
+                for level in (logging.DEBUG, logging.INFO):
+                    logger.setLevel(level)
+                    try:
+                        got = toks(s, pattern=rx)
+                    finally:
+                        logger.setLevel(old_level)
+                    if got != base:
+                        chk.fail('tiling', f'with the penman logger at level {logging.getLevelName(level)} the lexer gives '
+                                 f'{str(got)[:120]} instead of {str(base)[:120]}', dict(case, level=level))
+            if i % 10 == 0:
+                logger.setLevel(logging.DEBUG)
+                try:
+                    a = entry_parse(penman, s)
+                finally:
+                    logger.setLevel(old_level)
+                if a != entry_parse(penman, s):
+                    chk.fail('tiling', 'penman.parse gives a different outcome with DEBUG logging on', case)
+    finally:
+        logger.setLevel(old_level)
+        logger.removeHandler(handler)
+        logger.propagate = True
+        logging.disable(old_disable)
+    chk.stat('configuration-texts', n)
+
+
+def entry_parse(penman, s):
+    try:
+        return ('ok', repr(common.timed(penman.parse, s, seconds=5).node))
+    except penman.DecodeError as e:
+        return ('DecodeError', e.lineno, e.offset)
+    except Exception as e:       # noqa
+        return (type(e).__name__,)
 
 
 def position_stream(chk):
